@@ -69,3 +69,15 @@ func stripBiases(b J) J {
 	delete(c, "biases")
 	return c
 }
+
+func uniq(l []string) []string {
+	seen := map[string]bool{}
+	var out []string
+	for _, x := range l {
+		if !seen[x] {
+			seen[x] = true
+			out = append(out, x)
+		}
+	}
+	return out
+}
